@@ -151,6 +151,33 @@ def gen_buffers(thorough):
     return scripts
 
 
+def gen_bput_reuse():
+    """attached-buffer slots: bput A, bput B, only A is retired (served or cancelled), bput C, then B and C are completed in either order:
+    every buffered write stores the values its buffer held at posting time (a slot given to C may not overlap one a pending request still owns)"""
+    out = []
+    for how in ('wait', 'cancel'):
+        for sizes in ((3, 3, 3), (4, 2, 3), (2, 4, 2), (3, 3, 6), (1, 5, 5)):
+            for order in ('BC', 'CB', 'ALL'):
+                s = Script('ABUF-reuse-%s-%s-%s' % (how, '.'.join(map(str, sizes)), order), 1, 1, [('x', 40)], [('v', D.NC_INT, [0])])
+                s.put('*', 0, form='var', coll=1, tag=70)
+                s.op('*', 'buffer_attach', size=64)
+                posted = {}
+                for q, name in enumerate('AB'):
+                    ln, idx, vals = s.put('*', 0, [10 * q], [sizes[q]], None, form='vara', nb='b', req=q, tag=11 + q, update=False); posted[name] = (q, idx, vals)
+                if how == 'wait': s.op('*', 'wait', f=0, ids=['q0'], all=1); s.model.put_idx(0, posted['A'][1], posted['A'][2])
+                else: s.op('*', 'cancel', f=0, ids=['q0'])
+                ln, idx, vals = s.put('*', 0, [20], [sizes[2]], None, form='vara', nb='b', req=2, tag=13, update=False); posted['C'] = (2, idx, vals)
+                if order == 'ALL': s.op('*', 'wait', f=0, kind='ALL', all=1)
+                else:
+                    for name in order: s.op('*', 'wait', f=0, ids=['q%d' % posted[name][0]], all=1)
+                for name in 'BC': s.model.put_idx(0, posted[name][1], posted[name][2])
+                s.get_all('*', 0, coll=1, what='file content after buffered writes through reused slots')
+                s.op('*', 'buffer_detach')
+                s.finish()
+                out.append(s)
+    return out
+
+
 # ---------------------------------------------------------------- attached-buffer accounting (BFS)
 def abuf_init():
     m = FileModel(1)
@@ -210,7 +237,7 @@ def main(tier=None):
     ck = Check('C13', 'model_checking', tier)
     b = build.build('plain')
     thorough = ck.tier == 'thorough'
-    scripts = gen_buffers(thorough) + gen_buffers_mp(thorough)
+    scripts = gen_buffers(thorough) + gen_buffers_mp(thorough) + gen_bput_reuse()
     results = runner.run_cases(b['vx'], [s.case for s in scripts], batch=2, timeout=600)
     nev = 0
     for s, r in zip(scripts, results):
@@ -227,7 +254,7 @@ def main(tier=None):
     ck.cov['distinct_nontrivial'] = ck.cov.get('states', 0)
     ck.cov['rule'] = ('(a) request sizes on both sides of the 4096-byte in-place-swap threshold x external types needing swap x same/converting memory type x buffer datatypes {contiguous, vector with gaps, indexed, resized} x padded imap x nc_in_place_swap {auto,enable,disable} '
                       'x exit path {blocking, iput+wait_all, iput+cancel, bput+wait_all, bput+overwrite-after-post, put_varn, iput_varn+wait, put_vard, NC_ERANGE return, NC_EIOMISMATCH return, independent wait}: write buffers byte-identical afterwards, file holds posting-time '
-                      'values, reads modify exactly the type-map bytes; the blocking / flexible / iput / varn / record-variable writes again on 2-4 processes with intra-node aggregation (1 or 2 aggregators) and in-place swap auto / forced. (b) BFS over buffer_attach(40|100|0)/bput(sizes)/iput/wait_all and cancel of each pending request and of all/detach; usage, size, pending count and refusal compared with the model after every step.')
+                      'values, reads modify exactly the type-map bytes; the blocking / flexible / iput / varn / record-variable writes again on 2-4 processes with intra-node aggregation (1 or 2 aggregators) and in-place swap auto / forced. (a2) bput A, bput B, only A served or cancelled, bput C, B and C completed in either order or together, five size triples: the file holds the posting-time values of every buffered write. (b) BFS over buffer_attach(40|100|0)/bput(sizes)/iput/wait_all and cancel of each pending request and of all/detach; usage, size, pending count and refusal compared with the model after every step.')
     ck.assumptions += ['attached-buffer sizes 40 and 100 bytes, depth bound %d' % bfs.maxdepth]
     runner.cleanup()
     return ck.finish(min_eval=300, min_outcomes=10)
